@@ -1158,6 +1158,11 @@ func (p *printVisitor) LeaveDirectiveLocation(location ast.DirectiveLocation) {
 }
 
 func (p *printVisitor) EnterSchemaDefinition(ref int) {
+	if p.document.SchemaDefinitions[ref].Description.IsDefined {
+		p.must(p.document.PrintDescription(p.document.SchemaDefinitions[ref].Description, nil, 0, p.out))
+		p.write(literal.LINETERMINATOR)
+	}
+
 	p.write(literal.SCHEMA)
 	p.write(literal.SPACE)
 }
